@@ -173,6 +173,8 @@ struct Cx<'a> {
     loop_depth: usize,
     /// innermost-last: the continuation of the enclosing `for` body and the Boolean that records a `break`
     for_konts: Vec<(Kont, String)>,
+    /// number of invalidations that may have changed a plain (non-Cell) place so far
+    hard_inval: usize,
     epoch: usize,
     struct_params: BTreeMap<String, Ty>,
     /// translating a method of `Vm` over the abstract interpreter state `vm_ : Rs.Vm`
@@ -192,6 +194,16 @@ pub struct Sig {
     pub self_only: bool,
     /// for a method of a small struct passed by value (ExcHandler): the `self.<field>` places it reads, in input order
     pub self_paths: Vec<String>,
+    /// the impl the function belongs to
+    pub owner: Option<String>,
+    /// the Rust parameters in declaration order: (name, is an object parameter whose fields are read as places)
+    pub rust_params: Vec<(String, bool)>,
+    /// the Lean inputs after the parameters, in emitted order: (place path such as `self.locals` or `name.source`, type)
+    pub place_ins: Vec<(String, LT)>,
+    /// the `self` places written, in output order
+    pub written: Vec<String>,
+    /// no effect log, no cfg inputs, no fuel, not over the abstract interpreter state: callable from translated code on a sub-place
+    pub simple: bool,
 }
 
 fn lean_ident(s: &str) -> String {
@@ -406,7 +418,10 @@ impl<'a> Cx<'a> {
         } else {
             format!("{} as read after opaque `&mut self` call #{}", path, ver)
         };
-        self.inputs.push((lean.clone(), lt.clone(), note));
+        // the same place read again in the same epoch (e.g. in the other branch of an `if`) is the same input
+        if !self.inputs.iter().any(|i| i.0 == lean) {
+            self.inputs.push((lean.clone(), lt.clone(), note));
+        }
         let v = Var { lean, ty: lt };
         self.places.insert(path.to_string(), v.clone());
         Ok(v)
@@ -415,6 +430,7 @@ impl<'a> Cx<'a> {
     /// After a call that may mutate `self` in ways the translator does not see: every cached place is forgotten.
     fn invalidate_places(&mut self) {
         self.epoch += 1;
+        self.hard_inval += 1;
         self.places.clear();
     }
 
@@ -424,6 +440,7 @@ impl<'a> Cx<'a> {
         let method = callee.rsplit('.').next().unwrap_or("");
         if FOOTPRINT_CHUNK_ONLY.contains(&method) && self.body_mentions_only_chunk(method) {
             self.epoch += 1;
+            self.hard_inval += 1;
             self.places.retain(|p, _| !p.contains("chunk"));
             return;
         }
@@ -452,6 +469,15 @@ impl<'a> Cx<'a> {
 
     /// The syntactic place an expression denotes (`self.a.b`, through aliases, borrows and derefs), if any.
     fn path_of(&self, e: &Expr) -> Option<String> {
+        // `self.compilers.last().unwrap()` is what the accessor `compiler()` returns (its body is re-read on every run)
+        if let Expr::MethodCall(u) = e {
+            if u.method == "unwrap" && u.args.is_empty() {
+                let t = compact(&toks(e));
+                if (t == "self.compilers.last().unwrap()" || t == "self.compilers.last_mut().unwrap()") && self.accessor_body_is("compiler_mut", "self.compilers.last_mut().unwrap()") {
+                    return Some("self.compiler()".into());
+                }
+            }
+        }
         match e {
             Expr::Path(p) if p.path.segments.len() == 1 => {
                 let n = p.path.segments[0].ident.to_string();
@@ -487,6 +513,24 @@ impl<'a> Cx<'a> {
             }
             _ => None,
         }
+    }
+
+    fn accessor_body_is(&self, method: &str, body: &str) -> bool {
+        let st = match &self.self_ty {
+            Some(s) => s.clone(),
+            None => return false,
+        };
+        for im in &self.db.impls {
+            if im.self_ty.head() == Some(st.as_str()) {
+                for f in &im.fns {
+                    if f.sig.ident == method {
+                        let text = compact(&toks(&f.block));
+                        return text == format!("{{{}}}", body);
+                    }
+                }
+            }
+        }
+        false
     }
 
     fn const_value(&self, name: &str) -> Option<i128> {
